@@ -622,6 +622,9 @@ class MQTTBaseProtocol(Protocol):
         # Changes state and execute deferreds
         log.debug("<== {packet:7} (code={code} session={flags})", packet="CONNACK", code=response.resultCode, flags=response.session)
         request = self.connReq
+        if request.deferred is None:
+            # the CONNACK timeout has already failed this request and aborted the connection
+            return
         request.alarm.cancel()
         if response.resultCode == 0:
             self.state = self.CONNECTED
